@@ -186,3 +186,16 @@ func (a *Arena) Guard(fn func()) (fault *Fault, other any) {
 	fn()
 	return nil, nil
 }
+
+// GuardOpen runs fn with the arena left writable: a store is then not trapped but shows as changed bytes in the
+// next Snapshot. It complements Guard for stores made where a trap would be swallowed before it reaches the
+// caller (fmt recovers panics raised inside String / Error / Format methods while formatting).
+func (a *Arena) GuardOpen(fn func()) (other any) {
+	defer func() {
+		if r := recover(); r != nil {
+			other = r
+		}
+	}()
+	fn()
+	return nil
+}
